@@ -444,6 +444,9 @@ pub struct ConnectPlan {
     /// The peer is gone again before the server accepts: `poll_accept`
     /// itself reports an error (ECONNABORTED) for this attempt.
     pub accept_error: bool,
+    /// The server-side set-up (the accept future) takes this long in virtual
+    /// time before it succeeds or fails (a slow or hanging handshake).
+    pub setup_delay_ms: u64,
     pub client_cfg: PipeCfg,
     pub server_cfg: PipeCfg,
 }
@@ -455,6 +458,7 @@ impl Default for ConnectPlan {
             refuse: false,
             fail_setup: false,
             accept_error: false,
+            setup_delay_ms: 0,
             client_cfg: PipeCfg::default(),
             server_cfg: PipeCfg::default(),
         }
@@ -468,6 +472,7 @@ pub struct Accepted {
     pub index: usize,
     pub fail_setup: bool,
     pub accept_error: bool,
+    pub setup_delay_ms: u64,
 }
 
 struct ListenerInner {
@@ -586,6 +591,7 @@ impl SimConnector {
                 index,
                 fail_setup: plan.fail_setup,
                 accept_error: plan.accept_error,
+                setup_delay_ms: plan.setup_delay_ms,
             });
             g.waker.take()
         };
@@ -1039,7 +1045,7 @@ impl domain::net::client::protocol::AsyncConnect for SimDgConnector {
 impl domain::net::server::sock::AsyncAccept for SimListener {
     type Error = io::Error;
     type StreamType = SimStream;
-    type Future = std::future::Ready<Result<SimStream, io::Error>>;
+    type Future = Pin<Box<dyn Future<Output = Result<SimStream, io::Error>> + Send>>;
 
     fn poll_accept(&self, cx: &mut Context<'_>) -> Poll<io::Result<(Self::Future, SocketAddr)>> {
         match self.poll_accept_sim(cx) {
@@ -1050,12 +1056,25 @@ impl domain::net::server::sock::AsyncAccept for SimListener {
                 Poll::Ready(Err(io::Error::new(io::ErrorKind::ConnectionAborted, "simulated ECONNABORTED")))
             }
             Poll::Ready(Some(a)) => {
-                ev!("net {} accepted connection #{} from {}{}", self.name, a.index, a.peer, if a.fail_setup { " (set-up fails)" } else { "" });
-                if a.fail_setup {
+                ev!("net {} accepted connection #{} from {}{}{}", self.name, a.index, a.peer, if a.fail_setup { " (set-up fails)" } else { "" }, if a.setup_delay_ms > 0 { format!(" (set-up takes {} ms)", a.setup_delay_ms) } else { String::new() });
+                let (fail, delay, stream) = (a.fail_setup, a.setup_delay_ms, a.stream);
+                if fail {
                     sim::stat("fault.connection_setup_failed");
-                    return Poll::Ready(Ok((std::future::ready(Err(io::Error::new(io::ErrorKind::InvalidData, "simulated handshake failure"))), a.peer)));
                 }
-                Poll::Ready(Ok((std::future::ready(Ok(a.stream)), a.peer)))
+                if delay > 0 {
+                    sim::stat("fault.connection_setup_slow");
+                }
+                let fut = async move {
+                    if delay > 0 {
+                        tokio::time::sleep(std::time::Duration::from_millis(delay)).await;
+                    }
+                    if fail {
+                        Err(io::Error::new(io::ErrorKind::InvalidData, "simulated handshake failure"))
+                    } else {
+                        Ok(stream)
+                    }
+                };
+                Poll::Ready(Ok((Box::pin(fut) as Self::Future, a.peer)))
             }
             // A closed listener never yields again.
             Poll::Ready(None) => Poll::Pending,
